@@ -765,7 +765,161 @@ def queries_configs(supported: List[str]) -> List[Dict[str, Any]]:
     return [{"part": "queries", "vals": list(range(i, min(n, i + QUERY_CHUNK)))} for i in range(0, n, QUERY_CHUNK)]
 
 
+# ---------------------------------------------------------------------------
+# sequences of handshakes and session removals on ONE server: every live session keeps what ITS handshake answered
+# ---------------------------------------------------------------------------
+SEQ_UNSUPPORTED = "2099-01-01"
+SEQ_MAX_DELETE = 3          # delete_session of the k-th live session, k < 3
+SEQ_TICK = 10               # seconds of (stubbed) clock between two steps
+
+
+class _SeqClock:
+    def __init__(self):
+        self.now = 1_700_000_000.0
+
+    def time(self):
+        return self.now
+
+
+def run_sequences(ctl: explorer.Ctl, cfg: Dict[str, Any]) -> Dict[str, Any]:
+    import chuk_mcp.server.session.memory as mem
+    from chuk_mcp.protocol.messages.json_rpc_message import parse_message
+
+    supported = supported_set()
+    versions = list(supported) + [SEQ_UNSUPPORTED]
+    L = cfg["L"]
+    counters: Dict[str, int] = {"sequences": 1}
+    viol: List[dict] = []
+    steps: List[str] = []
+    ref: Dict[str, Any] = {}        # live session id -> (answered version, clientInfo name, created at)
+    live: List[str] = []            # in handshake order
+    removed: set = set()
+    state = {"removal_before": False}
+
+    def count(k, n=1):
+        counters[k] = counters.get(k, 0) + n
+
+    def bad(sig, msg, wire=None):
+        viol.append({"sig": dict(sig, after_a_removal=state["removal_before"]),
+                     "msg": f"steps {steps}: {msg}" + (f"; input={json.dumps(wire, ensure_ascii=True)}" if wire else "")})
+
+    clock = _SeqClock()
+    orig_time = mem.time
+
+    async def main():
+        if cfg["kind"] == "MCPServer":
+            from chuk_mcp.server.server import MCPServer
+
+            handler = MCPServer("vf-c04-seq", "0.0.1").protocol_handler
+        else:
+            handler = _handler_factory()()
+        sm = handler.session_manager
+
+        def resync(op):
+            """After a removal the store says which sessions are left (which ones a removal takes is C19's subject)."""
+            for sid in list(live):
+                if sm.get_session(sid) is None:
+                    live.remove(sid)
+                    ref.pop(sid, None)
+                    removed.add(sid)
+            state["removal_before"] = True
+
+        def check_all(after):
+            for sid in live:
+                answered, name, _t = ref[sid]
+                rec = sm.get_session(sid)
+                if rec is None:
+                    bad({"class": "session-of-an-earlier-handshake-lost", "after_op": after},
+                        f"after {after}: the session of the handshake answered {answered!r} for {name!r} is gone although "
+                        f"nothing removed it")
+                    return False
+                if not strict_eq(rec.protocol_version, answered):
+                    bad({"class": "earlier-session-rewritten", "field": "protocol_version", "after_op": after},
+                        f"after {after}: the session handed to {name!r} was answered {answered!r} but now records "
+                        f"{rec.protocol_version!r} (clientInfo {rec.client_info!r})")
+                    return False
+                got_name = rec.client_info.get("name") if isinstance(rec.client_info, dict) else None
+                if got_name != name:
+                    bad({"class": "earlier-session-rewritten", "field": "client_info", "after_op": after},
+                        f"after {after}: the session handed to {name!r} now records clientInfo {rec.client_info!r}")
+                    return False
+            for sid in removed:
+                if sid not in ref and sm.get_session(sid) is not None:
+                    bad({"class": "removed-session-resurrected", "after_op": after},
+                        f"after {after}: a removed session id is found in the store again without a handshake that got it")
+                    return False
+            return True
+
+        for n in range(L):
+            menu = [("init", i) for i in range(len(versions))] + \
+                   [("delete", k) for k in range(min(SEQ_MAX_DELETE, len(live)))] + [("cleanup-oldest", None), ("clear", None)]
+            kind, arg = menu[ctl.choose(len(menu), f"step{n}")]
+            clock.now += SEQ_TICK
+            count("sequence-steps")
+            if kind == "init":
+                v = versions[arg]
+                name = f"client-of-step-{n}"
+                steps.append(f"initialize({v})")
+                wire = build_init(v, {"name": name, "version": str(n)})
+                wire["id"] = 100 + n
+                r = await judge_step(handler, parse_message, supported, wire, v, count, bad, fresh=False)
+                if viol:
+                    return
+                sid = r["sid"]
+                if sid is None:
+                    return          # (an error answer is judged above; nothing recorded to follow)
+                if sid in ref:
+                    a0, n0, _ = ref[sid]
+                    bad({"class": "live-session-id-handed-out-again", "after_op": "initialize"},
+                        f"this initialize was given session id {sid!r}, which is the id of the still live session of {n0!r} "
+                        f"(answered {a0!r})", wire)
+                    return
+                ref[sid] = (r["answered"], name, clock.now)
+                live.append(sid)
+                removed.discard(sid)
+                after = "initialize"
+            elif kind == "delete":
+                steps.append(f"delete_session(live#{arg})")
+                sm.delete_session(live[arg])
+                resync(kind)
+                after = "delete_session"
+            elif kind == "cleanup-oldest":
+                # the largest whole max_age that still makes the oldest live session "idle for longer than the limit"
+                age = int(clock.now - ref[live[0]][2]) - 1 if live else 3600
+                steps.append(f"cleanup_expired({age})")
+                sm.cleanup_expired(age)
+                resync(kind)
+                after = "cleanup_expired"
+            else:
+                steps.append("clear_all_sessions()")
+                sm.clear_all_sessions()
+                resync(kind)
+                after = "clear_all_sessions"
+            count("op:" + kind)
+            if not check_all(after):
+                return
+
+    loop = new_loop(horizon=5)
+    mem.time = clock
+    try:
+        with sched.patched_uuid():
+            status, val = loop.run_main(main())
+            errors = loop.collect_errors()
+            loop.abandon()
+    finally:
+        mem.time = orig_time
+    if status != "ok":
+        raise core.HarnessError(f"sequence {cfg} {steps} did not complete: {status} {val!r}")
+    if errors:
+        raise core.HarnessError(f"sequence {cfg} {steps}: event loop reported {errors[:2]}")
+    counters["live-sessions-checked"] = len(live)
+    return {"outcome": f"live{len(live)}:removed{len(removed)}" + (":violation" if viol else ""), "steps": steps,
+            "violations": viol[:1], "counters": counters}
+
+
 def run_one(ctl: explorer.Ctl, cfg: Dict[str, Any]) -> Dict[str, Any]:
+    if cfg["part"] == "sequences":
+        return run_sequences(ctl, cfg)
     if cfg["part"] == "queries":
         return run_queries(cfg)
     if cfg["part"] == "pairing":
@@ -833,6 +987,14 @@ def run(tier: str, only=None) -> core.Result:
         sched.absorb(res, name, RUN, out, cfgs)
     # second pass: per signature the first failing cases (enumeration order), each executed alone, carry the violations
     twopass.second_pass(res, RUN, list(parts), per_sig=3)
+    if not only or "sequences" in only:
+        L = 5 if tier == "quick" else 6
+        scfgs = [{"part": "sequences", "kind": k, "L": L} for k in ("ProtocolHandler", "MCPServer")]
+        outs = explorer.explore(RUN, scfgs)
+        sched.absorb(res, "handshake-and-removal-sequences", RUN, outs, scfgs)
+    sq = res.parts.get("handshake-and-removal-sequences", {})
+    res.coverage["sequences_executed"] = sq.get("executions", 0)
+    res.coverage["sequence_steps"] = sq.get("counters", {}).get("sequence-steps", 0)
     # LAST (it calls the versioning module's query functions, so whatever they might leave behind in this process cannot
     # reach the parts above): every public query with the value first, then initialize with it
     if not only or "queries" in only:
@@ -852,7 +1014,7 @@ def run(tier: str, only=None) -> core.Result:
     p = res.parts.get("pairing", {}).get("counters", {})
     t = res.parts.get("twostep", {}).get("counters", {})
     evaluations = (g.get("cases", 0) + m.get("cases", 0) + p.get("pairing-cases", 0) + t.get("twostep-cases", 0)
-                   + qc.get("cases", 0))
+                   + qc.get("cases", 0) + sq.get("executions", 0))
     res.coverage["twostep_cases"] = t.get("twostep-cases", 0)
     # (d) strings that a lenient parser reads as a supported date without being the supported string
     look = {sv: sum(1 for v in versions if isinstance(v, str) and v != sv and loose_parse(v) == loose_parse(sv))
@@ -899,7 +1061,12 @@ def run(tier: str, only=None) -> core.Result:
         "4 envelope shapes; each on a fresh ProtocolHandler.  Two-step: every ordered pair of 12 requested values (one or more per "
         "class: each supported, future / past / non-calendar date, word, supported+newline, Arabic-Indic look-alike, int, null, "
         "absent) as two initialize requests on ONE handler, the second carrying no session id / the first one's / a never-issued "
-        "one; the session id returned by each initialize must record the version answered by that initialize.  Queries-then-initialize: for "
+        "one; the session id returned by each initialize must record the version answered by that initialize.  Sequences: every "
+        "sequence of length " + ("5" if tier == "quick" else "6") + " over {initialize with each supported version or 2099-01-01 (a new clientInfo "
+        "name each time), delete_session of the 1st/2nd/3rd live session, cleanup_expired with the limit that ages out exactly "
+        "the oldest, clear_all_sessions} on one ProtocolHandler and on one MCPServer, stubbed clock; after EVERY step every live "
+        "session must still record the version answered in ITS handshake and its own clientInfo name, no live id is handed out "
+        "again, no removed id reappears without a handshake.  Queries-then-initialize: for "
         "unsupported dates (incl. both neighbours of every supported date), every generated look-alike, every malformed string "
         "and 6 non-strings, in chunks of 6: a never-queried canary is initialized first; then for each value every public "
         "function of chuk_mcp.protocol.types.versioning and every public ProtocolVersion method (found by introspection) is called "
@@ -923,6 +1090,8 @@ def run(tier: str, only=None) -> core.Result:
         "the pairing pump carries wire dicts (model_dump(exclude_none) -> JSON -> parse_message) like a transport; "
         "a handshake ending in VersionMismatchError is accepted even when client and server lists intersect",
         "virtual-time loop schedules ready callbacks FIFO like stock asyncio",
+        "sequences part: which sessions a removal operation takes is read back from the store (map behaviour is C19's subject); "
+        "an id of a removed session may be handed to a later handshake; ids are compared as opaque values",
         "calling the versioning module's public query functions with any value is an observation: it must not change what any "
         "server answers afterwards (this part runs last in the process so that it cannot influence the others)",
     ]
